@@ -1,1 +1,533 @@
 // in-crate Kani harnesses included into the real crate under cfg(kani) (see MANIFEST.hooks)
+// C16 (S1): auth/secret_key.rs — `SecretKey`, `Credentials`.
+//
+// Property: "Secret access keys held by the adapter never appear in anything it emits: ... not in the Debug or
+// serialised form of any public value that contains them."
+//
+// Method: 2-safety (non-interference) by self-composition.  Two secrets of concrete lengths (L1, L2), symbolic
+// bytes, are wrapped into `SecretKey` / `Credentials` (fixed access key "AK"); what `Debug` writes into a
+// `core::fmt::Write` sink and what `serde::Serialize` hands to a recording `Serializer` must be byte-for-byte
+// identical for both (length + bytes, position-wise).  `core::fmt` is the subject and is NOT stubbed.  A second
+// obligation (no-leak) takes a secret over characters that no identifier / placeholder word contains
+// ({'0'..'9', '~'}) and requires that no emitted byte equals any byte of the secret.  `expose()` is checked to
+// return exactly the wrapped bytes, so the values under test do hold the secret (non-vacuity).
+//
+// Alphabet of every symbolic secret byte: printable ASCII 0x20..=0x7e (no-leak harnesses: {'0'..'9', '~'}).
+pub(crate) mod verif_kani_secret {
+    use super::*;
+    use core::fmt::Write as _;
+    use core::mem::forget;
+
+    const CAP: usize = 96;
+
+    /// `core::fmt::Write` / recording sink on the stack
+    struct Sink {
+        b: [u8; CAP],
+        n: usize,
+        overflow: bool,
+        calls: usize,
+    }
+
+    impl Sink {
+        fn new() -> Self {
+            Self {
+                b: [0; CAP],
+                n: 0,
+                overflow: false,
+                calls: 0,
+            }
+        }
+
+        fn put(&mut self, src: &[u8]) {
+            self.calls += 1;
+            let end = self.n + src.len();
+            if end <= CAP {
+                self.b[self.n..end].copy_from_slice(src);
+                self.n = end;
+            } else {
+                self.overflow = true;
+            }
+        }
+    }
+
+    impl fmt::Write for Sink {
+        fn write_str(&mut self, s: &str) -> fmt::Result {
+            self.put(s.as_bytes());
+            Ok(())
+        }
+    }
+
+    fn assume_printable(b: &[u8]) {
+        let mut i = 0;
+        while i < b.len() {
+            kani::assume(b[i] >= 0x20 && b[i] <= 0x7e);
+            i += 1;
+        }
+    }
+
+    fn assume_digits(b: &[u8]) {
+        let mut i = 0;
+        while i < b.len() {
+            kani::assume((b[i] >= b'0' && b[i] <= b'9') || b[i] == b'~');
+            i += 1;
+        }
+    }
+
+    /// safe view (the crate forbids unsafe code); the bytes are ASCII by assumption
+    fn text(b: &[u8]) -> &str {
+        core::str::from_utf8(b).unwrap()
+    }
+
+    /// stub of `core::str::validations::run_utf8_validation` (STYLE.md 4b): sound because the only texts
+    /// validated in these harnesses are the secrets, whose bytes are assumed ASCII
+    fn utf8_ok(_v: &[u8]) -> Result<(), core::str::Utf8Error> {
+        Ok(())
+    }
+
+    fn same_output(x: &Sink, y: &Sink) -> bool {
+        if x.overflow || y.overflow || x.n != y.n {
+            return false;
+        }
+        let mut i = 0;
+        while i < x.n {
+            if x.b[i] != y.b[i] {
+                return false;
+            }
+            i += 1;
+        }
+        true
+    }
+
+    /// some emitted byte equals some byte of the secret
+    fn shares_a_byte(x: &Sink, secret: &[u8]) -> bool {
+        let mut i = 0;
+        while i < x.n {
+            let mut j = 0;
+            while j < secret.len() {
+                if x.b[i] == secret[j] {
+                    return true;
+                }
+                j += 1;
+            }
+            i += 1;
+        }
+        false
+    }
+
+    // ----------------------------------------------------------------------------------------------
+    // recording serde::Serializer: text / byte payloads are copied into the sink, every other data-model
+    // call is refused by a panic (= harness failure: the emitter took a route that is not recorded)
+    // ----------------------------------------------------------------------------------------------
+
+    #[derive(Debug)]
+    struct RecErr;
+
+    impl fmt::Display for RecErr {
+        fn fmt(&self, f: &mut fmt::Formatter<'_>) -> fmt::Result {
+            f.write_str("RecErr")
+        }
+    }
+
+    impl std::error::Error for RecErr {}
+
+    impl serde::ser::Error for RecErr {
+        fn custom<T: fmt::Display>(_msg: T) -> Self {
+            RecErr
+        }
+    }
+
+    type No = serde::ser::Impossible<(), RecErr>;
+
+    impl serde::Serializer for &mut Sink {
+        type Ok = ();
+        type Error = RecErr;
+        type SerializeSeq = No;
+        type SerializeTuple = No;
+        type SerializeTupleStruct = No;
+        type SerializeTupleVariant = No;
+        type SerializeMap = No;
+        type SerializeStruct = No;
+        type SerializeStructVariant = No;
+
+        fn serialize_str(self, v: &str) -> Result<(), RecErr> {
+            self.put(v.as_bytes());
+            Ok(())
+        }
+        fn serialize_bytes(self, v: &[u8]) -> Result<(), RecErr> {
+            self.put(v);
+            Ok(())
+        }
+        fn serialize_bool(self, _v: bool) -> Result<(), RecErr> {
+            unreachable!()
+        }
+        fn serialize_i8(self, _v: i8) -> Result<(), RecErr> {
+            unreachable!()
+        }
+        fn serialize_i16(self, _v: i16) -> Result<(), RecErr> {
+            unreachable!()
+        }
+        fn serialize_i32(self, _v: i32) -> Result<(), RecErr> {
+            unreachable!()
+        }
+        fn serialize_i64(self, _v: i64) -> Result<(), RecErr> {
+            unreachable!()
+        }
+        fn serialize_u8(self, _v: u8) -> Result<(), RecErr> {
+            unreachable!()
+        }
+        fn serialize_u16(self, _v: u16) -> Result<(), RecErr> {
+            unreachable!()
+        }
+        fn serialize_u32(self, _v: u32) -> Result<(), RecErr> {
+            unreachable!()
+        }
+        fn serialize_u64(self, _v: u64) -> Result<(), RecErr> {
+            unreachable!()
+        }
+        fn serialize_f32(self, _v: f32) -> Result<(), RecErr> {
+            unreachable!()
+        }
+        fn serialize_f64(self, _v: f64) -> Result<(), RecErr> {
+            unreachable!()
+        }
+        fn serialize_char(self, _v: char) -> Result<(), RecErr> {
+            unreachable!()
+        }
+        fn serialize_none(self) -> Result<(), RecErr> {
+            unreachable!()
+        }
+        fn serialize_some<T: ?Sized + Serialize>(self, _value: &T) -> Result<(), RecErr> {
+            unreachable!()
+        }
+        fn serialize_unit(self) -> Result<(), RecErr> {
+            unreachable!()
+        }
+        fn serialize_unit_struct(self, _name: &'static str) -> Result<(), RecErr> {
+            unreachable!()
+        }
+        fn serialize_unit_variant(self, _name: &'static str, _i: u32, _variant: &'static str) -> Result<(), RecErr> {
+            unreachable!()
+        }
+        fn serialize_newtype_struct<T: ?Sized + Serialize>(self, _name: &'static str, _value: &T) -> Result<(), RecErr> {
+            unreachable!()
+        }
+        fn serialize_newtype_variant<T: ?Sized + Serialize>(
+            self,
+            _name: &'static str,
+            _i: u32,
+            _variant: &'static str,
+            _value: &T,
+        ) -> Result<(), RecErr> {
+            unreachable!()
+        }
+        fn serialize_seq(self, _len: Option<usize>) -> Result<No, RecErr> {
+            unreachable!()
+        }
+        fn serialize_tuple(self, _len: usize) -> Result<No, RecErr> {
+            unreachable!()
+        }
+        fn serialize_tuple_struct(self, _name: &'static str, _len: usize) -> Result<No, RecErr> {
+            unreachable!()
+        }
+        fn serialize_tuple_variant(
+            self,
+            _name: &'static str,
+            _i: u32,
+            _variant: &'static str,
+            _len: usize,
+        ) -> Result<No, RecErr> {
+            unreachable!()
+        }
+        fn serialize_map(self, _len: Option<usize>) -> Result<No, RecErr> {
+            unreachable!()
+        }
+        fn serialize_struct(self, _name: &'static str, _len: usize) -> Result<No, RecErr> {
+            unreachable!()
+        }
+        fn serialize_struct_variant(
+            self,
+            _name: &'static str,
+            _i: u32,
+            _variant: &'static str,
+            _len: usize,
+        ) -> Result<No, RecErr> {
+            unreachable!()
+        }
+    }
+
+    // ----------------------------------------------------------------------------------------------
+    // the three emitters
+    // ----------------------------------------------------------------------------------------------
+
+    fn emit_debug_key(k: &SecretKey) -> Sink {
+        let mut o = Sink::new();
+        let r = write!(o, "{:?}", k);
+        assert!(r.is_ok());
+        o
+    }
+
+    fn emit_debug_cred(c: &Credentials) -> Sink {
+        let mut o = Sink::new();
+        let r = write!(o, "{:?}", c);
+        assert!(r.is_ok());
+        o
+    }
+
+    fn emit_serialize_key(k: &SecretKey) -> Sink {
+        let mut o = Sink::new();
+        let r = k.serialize(&mut o);
+        assert!(r.is_ok());
+        forget(r);
+        o
+    }
+
+    fn cred(secret: &[u8]) -> Credentials {
+        Credentials {
+            access_key: String::from("AK"),
+            secret_key: SecretKey::from(text(secret)),
+        }
+    }
+
+    // ----------------------------------------------------------------------------------------------
+    // expose(): the wrapped value is the secret (so the harnesses below are about values holding it)
+    // ----------------------------------------------------------------------------------------------
+
+    fn expose_exact<const L: usize>() {
+        let s: [u8; L] = kani::any();
+        assume_printable(&s);
+        let k = SecretKey::from(text(&s));
+        let e = k.expose().as_bytes();
+        assert!(e.len() == L);
+        let mut i = 0;
+        while i < L {
+            assert!(e[i] == s[i]);
+            i += 1;
+        }
+        let c = cred(&s);
+        let e = c.secret_key.expose().as_bytes();
+        assert!(e.len() == L);
+        let mut i = 0;
+        while i < L {
+            assert!(e[i] == s[i]);
+            i += 1;
+        }
+        kani::cover!(true);
+        forget(k);
+        forget(c);
+    }
+
+    #[kani::proof]
+    #[kani::unwind(5)]
+    #[kani::stub(core::str::validations::run_utf8_validation, utf8_ok)]
+    pub(crate) fn c16_expose_exact_1() {
+        expose_exact::<1>();
+    }
+    #[kani::proof]
+    #[kani::unwind(5)]
+    #[kani::stub(core::str::validations::run_utf8_validation, utf8_ok)]
+    pub(crate) fn c16_expose_exact_3() {
+        expose_exact::<3>();
+    }
+
+    // ----------------------------------------------------------------------------------------------
+    // non-interference
+    // ----------------------------------------------------------------------------------------------
+
+    fn ni_debug_key<const L1: usize, const L2: usize>() {
+        let s1: [u8; L1] = kani::any();
+        assume_printable(&s1);
+        let s2: [u8; L2] = kani::any();
+        assume_printable(&s2);
+        let k1 = SecretKey::from(text(&s1));
+        let k2 = SecretKey::from(text(&s2));
+        let o1 = emit_debug_key(&k1);
+        let o2 = emit_debug_key(&k2);
+        assert!(o1.n > 0, "nothing was emitted");
+        assert!(same_output(&o1, &o2), "Debug of SecretKey depends on the secret");
+        kani::cover!(true);
+        forget(k1);
+        forget(k2);
+    }
+
+    fn ni_debug_cred<const L1: usize, const L2: usize>() {
+        let s1: [u8; L1] = kani::any();
+        assume_printable(&s1);
+        let s2: [u8; L2] = kani::any();
+        assume_printable(&s2);
+        let c1 = cred(&s1);
+        let c2 = cred(&s2);
+        let o1 = emit_debug_cred(&c1);
+        let o2 = emit_debug_cred(&c2);
+        assert!(o1.n > 0, "nothing was emitted");
+        assert!(same_output(&o1, &o2), "Debug of Credentials depends on the secret");
+        kani::cover!(true);
+        forget(c1);
+        forget(c2);
+    }
+
+    fn ni_serialize_key<const L1: usize, const L2: usize>() {
+        let s1: [u8; L1] = kani::any();
+        assume_printable(&s1);
+        let s2: [u8; L2] = kani::any();
+        assume_printable(&s2);
+        let k1 = SecretKey::from(text(&s1));
+        let k2 = SecretKey::from(text(&s2));
+        let o1 = emit_serialize_key(&k1);
+        let o2 = emit_serialize_key(&k2);
+        assert!(o1.calls == 1 && o2.calls == 1, "exactly one payload is handed to the serializer");
+        assert!(same_output(&o1, &o2), "Serialize of SecretKey depends on the secret");
+        kani::cover!(true);
+        forget(k1);
+        forget(k2);
+    }
+
+    // ----------------------------------------------------------------------------------------------
+    // no-leak: a secret over {'0'..'9', '~'} shares no byte with anything emitted
+    // ----------------------------------------------------------------------------------------------
+
+    fn no_leak<const L: usize>() {
+        let s: [u8; L] = kani::any();
+        assume_digits(&s);
+        let c = cred(&s);
+        let o = emit_debug_key(&c.secret_key);
+        assert!(!shares_a_byte(&o, &s), "Debug of SecretKey shows a byte of the secret");
+        let o = emit_debug_cred(&c);
+        assert!(!shares_a_byte(&o, &s), "Debug of Credentials shows a byte of the secret");
+        let o = emit_serialize_key(&c.secret_key);
+        assert!(!shares_a_byte(&o, &s), "Serialize of SecretKey shows a byte of the secret");
+        kani::cover!(true);
+        forget(c);
+    }
+
+    // (harnesses are written out as plain functions: the runner's native playback locates `fn <name>(` here)
+
+    #[kani::proof]
+    #[kani::unwind(100)]
+    #[kani::stub(core::str::validations::run_utf8_validation, utf8_ok)]
+    pub(crate) fn c16_ni_debug_key_1_1() {
+        ni_debug_key::<1, 1>();
+    }
+    #[kani::proof]
+    #[kani::unwind(100)]
+    #[kani::stub(core::str::validations::run_utf8_validation, utf8_ok)]
+    pub(crate) fn c16_ni_debug_key_2_2() {
+        ni_debug_key::<2, 2>();
+    }
+    #[kani::proof]
+    #[kani::unwind(100)]
+    #[kani::stub(core::str::validations::run_utf8_validation, utf8_ok)]
+    pub(crate) fn c16_ni_debug_key_3_3() {
+        ni_debug_key::<3, 3>();
+    }
+    #[kani::proof]
+    #[kani::unwind(100)]
+    #[kani::stub(core::str::validations::run_utf8_validation, utf8_ok)]
+    pub(crate) fn c16_ni_debug_key_1_2() {
+        ni_debug_key::<1, 2>();
+    }
+    #[kani::proof]
+    #[kani::unwind(100)]
+    #[kani::stub(core::str::validations::run_utf8_validation, utf8_ok)]
+    pub(crate) fn c16_ni_debug_key_1_3() {
+        ni_debug_key::<1, 3>();
+    }
+    #[kani::proof]
+    #[kani::unwind(100)]
+    #[kani::stub(core::str::validations::run_utf8_validation, utf8_ok)]
+    pub(crate) fn c16_ni_debug_key_2_3() {
+        ni_debug_key::<2, 3>();
+    }
+
+    #[kani::proof]
+    #[kani::unwind(100)]
+    #[kani::stub(core::str::validations::run_utf8_validation, utf8_ok)]
+    pub(crate) fn c16_ni_debug_cred_1_1() {
+        ni_debug_cred::<1, 1>();
+    }
+    #[kani::proof]
+    #[kani::unwind(100)]
+    #[kani::stub(core::str::validations::run_utf8_validation, utf8_ok)]
+    pub(crate) fn c16_ni_debug_cred_2_2() {
+        ni_debug_cred::<2, 2>();
+    }
+    #[kani::proof]
+    #[kani::unwind(100)]
+    #[kani::stub(core::str::validations::run_utf8_validation, utf8_ok)]
+    pub(crate) fn c16_ni_debug_cred_3_3() {
+        ni_debug_cred::<3, 3>();
+    }
+    #[kani::proof]
+    #[kani::unwind(100)]
+    #[kani::stub(core::str::validations::run_utf8_validation, utf8_ok)]
+    pub(crate) fn c16_ni_debug_cred_1_2() {
+        ni_debug_cred::<1, 2>();
+    }
+    #[kani::proof]
+    #[kani::unwind(100)]
+    #[kani::stub(core::str::validations::run_utf8_validation, utf8_ok)]
+    pub(crate) fn c16_ni_debug_cred_1_3() {
+        ni_debug_cred::<1, 3>();
+    }
+    #[kani::proof]
+    #[kani::unwind(100)]
+    #[kani::stub(core::str::validations::run_utf8_validation, utf8_ok)]
+    pub(crate) fn c16_ni_debug_cred_2_3() {
+        ni_debug_cred::<2, 3>();
+    }
+
+    #[kani::proof]
+    #[kani::unwind(100)]
+    #[kani::stub(core::str::validations::run_utf8_validation, utf8_ok)]
+    pub(crate) fn c16_ni_serialize_key_1_1() {
+        ni_serialize_key::<1, 1>();
+    }
+    #[kani::proof]
+    #[kani::unwind(100)]
+    #[kani::stub(core::str::validations::run_utf8_validation, utf8_ok)]
+    pub(crate) fn c16_ni_serialize_key_2_2() {
+        ni_serialize_key::<2, 2>();
+    }
+    #[kani::proof]
+    #[kani::unwind(100)]
+    #[kani::stub(core::str::validations::run_utf8_validation, utf8_ok)]
+    pub(crate) fn c16_ni_serialize_key_3_3() {
+        ni_serialize_key::<3, 3>();
+    }
+    #[kani::proof]
+    #[kani::unwind(100)]
+    #[kani::stub(core::str::validations::run_utf8_validation, utf8_ok)]
+    pub(crate) fn c16_ni_serialize_key_1_2() {
+        ni_serialize_key::<1, 2>();
+    }
+    #[kani::proof]
+    #[kani::unwind(100)]
+    #[kani::stub(core::str::validations::run_utf8_validation, utf8_ok)]
+    pub(crate) fn c16_ni_serialize_key_1_3() {
+        ni_serialize_key::<1, 3>();
+    }
+    #[kani::proof]
+    #[kani::unwind(100)]
+    #[kani::stub(core::str::validations::run_utf8_validation, utf8_ok)]
+    pub(crate) fn c16_ni_serialize_key_2_3() {
+        ni_serialize_key::<2, 3>();
+    }
+
+    #[kani::proof]
+    #[kani::unwind(100)]
+    #[kani::stub(core::str::validations::run_utf8_validation, utf8_ok)]
+    pub(crate) fn c16_no_leak_1() {
+        no_leak::<1>();
+    }
+    #[kani::proof]
+    #[kani::unwind(100)]
+    #[kani::stub(core::str::validations::run_utf8_validation, utf8_ok)]
+    pub(crate) fn c16_no_leak_2() {
+        no_leak::<2>();
+    }
+    #[kani::proof]
+    #[kani::unwind(100)]
+    #[kani::stub(core::str::validations::run_utf8_validation, utf8_ok)]
+    pub(crate) fn c16_no_leak_3() {
+        no_leak::<3>();
+    }
+}
